@@ -14,9 +14,19 @@ use crate::exec::{program, Failure, Observation, Snap};
 pub struct Violation {
    pub class: String,
    pub detail: String,
+   /// the relation the oracle found wrong (None for panics / deadlocks)
+   #[serde(default)]
+   pub rel: Option<String>,
+   /// every relation that differs (for equality-type oracles); used to match known findings
+   #[serde(default)]
+   pub rels: Vec<String>,
 }
 
-fn v(class: &str, detail: String) -> Option<Violation> { Some(Violation { class: class.to_string(), detail }) }
+fn v(class: &str, detail: String) -> Option<Violation> { Some(Violation { class: class.to_string(), detail, rel: None, rels: vec![] }) }
+
+fn vr(class: &str, rel: &str, detail: String) -> Option<Violation> {
+   Some(Violation { class: class.to_string(), detail, rel: Some(rel.to_string()), rels: vec![rel.to_string()] })
+}
 
 pub type Facts = Vec<(String, Vec<Row>)>;
 
@@ -53,6 +63,24 @@ fn short(r: &Row) -> String { format!("{:?}", r) }
 fn equal_to_reference(
    def: &ProgramDef, rels: &[Vec<Row>], reference: &BTreeMap<String, Vec<Row>>, ctx: &str,
 ) -> Option<Violation> {
+   let mut first = equal_to_reference_first(def, rels, reference, ctx)?;
+   first.rels = def
+      .rels
+      .iter()
+      .zip(rels)
+      .filter(|(m, rows)| {
+         m.io && reference.get(m.name).map_or(false, |want| {
+            rows.iter().collect::<std::collections::BTreeSet<_>>() != want.iter().collect::<std::collections::BTreeSet<_>>()
+         })
+      })
+      .map(|(m, _)| m.name.to_string())
+      .collect();
+   Some(first)
+}
+
+fn equal_to_reference_first(
+   def: &ProgramDef, rels: &[Vec<Row>], reference: &BTreeMap<String, Vec<Row>>, ctx: &str,
+) -> Option<Violation> {
    for (meta, rows) in def.rels.iter().zip(rels) {
       if !meta.io {
          continue;
@@ -68,27 +96,25 @@ fn equal_to_reference(
          let gm: BTreeMap<&[vcorpus::Val], &Row> = got.iter().map(|r| (&r[..k], *r)).collect();
          let wm: BTreeMap<&[vcorpus::Val], &Row> = want.iter().map(|r| (&r[..k], *r)).collect();
          if gm.len() != got.len() {
-            return v("duplicate-key", format!("{}: lattice {} holds several rows for one key", ctx, meta.name));
+            return vr("duplicate-key", meta.name, format!("{}: lattice {} holds several rows for one key", ctx, meta.name));
          }
          for (key, w) in wm.iter() {
             match gm.get(key) {
-               None => return v("missing-tuple", format!("{}: lattice {} lacks key of {}", ctx, meta.name, short(w))),
+               None => return vr("missing-tuple", meta.name, format!("{}: lattice {} lacks key of {}", ctx, meta.name, short(w))),
                Some(g) if g != w =>
-                  return v(
-                     "lattice-value",
-                     format!("{}: lattice {} has {} expected {}", ctx, meta.name, short(g), short(w)),
+                  return vr("lattice-value", meta.name, format!("{}: lattice {} has {} expected {}", ctx, meta.name, short(g), short(w)),
                   ),
                _ => {},
             }
          }
          let extra = gm.iter().find(|(k, _)| !wm.contains_key(*k)).unwrap();
-         return v("extra-tuple", format!("{}: lattice {} has unexpected {}", ctx, meta.name, short(extra.1)));
+         return vr("extra-tuple", meta.name, format!("{}: lattice {} has unexpected {}", ctx, meta.name, short(extra.1)));
       }
       if let Some(m) = want.difference(&got).next() {
-         return v("missing-tuple", format!("{}: relation {} lacks {}", ctx, meta.name, short(m)));
+         return vr("missing-tuple", meta.name, format!("{}: relation {} lacks {}", ctx, meta.name, short(m)));
       }
       let e = got.difference(&want).next().unwrap();
-      return v("extra-tuple", format!("{}: relation {} has underivable {}", ctx, meta.name, short(e)));
+      return vr("extra-tuple", meta.name, format!("{}: relation {} has underivable {}", ctx, meta.name, short(e)));
    }
    None
 }
@@ -109,11 +135,9 @@ fn subset_of_reference(
          for r in rows {
             match wm.get(&r[..k]) {
                None =>
-                  return v("unsound-partial", format!("{}: lattice {} has key of {} absent from the fixed point", ctx, meta.name, short(r))),
+                  return vr("unsound-partial", meta.name, format!("{}: lattice {} has key of {} absent from the fixed point", ctx, meta.name, short(r))),
                Some(w) if !leq(&r[k], &w[k]) =>
-                  return v(
-                     "unsound-partial",
-                     format!("{}: lattice {} value {} is not below final {}", ctx, meta.name, short(r), short(w)),
+                  return vr("unsound-partial", meta.name, format!("{}: lattice {} value {} is not below final {}", ctx, meta.name, short(r), short(w)),
                   ),
                _ => {},
             }
@@ -121,7 +145,7 @@ fn subset_of_reference(
       } else {
          let want: std::collections::BTreeSet<&Row> = want.iter().collect();
          if let Some(r) = rows.iter().find(|r| !want.contains(r)) {
-            return v("unsound-partial", format!("{}: relation {} has underivable {}", ctx, meta.name, short(r)));
+            return vr("unsound-partial", meta.name, format!("{}: relation {} has underivable {}", ctx, meta.name, short(r)));
          }
       }
    }
@@ -150,20 +174,16 @@ fn multiplicity(def: &ProgramDef, rels: &[Vec<Row>], facts: &Facts, ctx: &str) -
          for (key, rs) in per_key.iter() {
             let allowed = in_keys.get(key).cloned().unwrap_or(1).max(1);
             if rs.len() > allowed {
-               return v(
-                  "duplicate-key",
-                  format!("{}: lattice {} holds {} rows for the key of {}", ctx, meta.name, rs.len(), short(rs[0])),
+               return vr("duplicate-key", meta.name, format!("{}: lattice {} holds {} rows for the key of {}", ctx, meta.name, rs.len(), short(rs[0])),
                );
             }
          }
          for r in pushed.iter() {
             match per_key.get(&r[..k]) {
-               None => return v("lost-input", format!("{}: lattice {} lost input key of {}", ctx, meta.name, short(r))),
+               None => return vr("lost-input", meta.name, format!("{}: lattice {} lost input key of {}", ctx, meta.name, short(r))),
                Some(rs) =>
                   if !rs.iter().any(|o| leq(&r[k], &o[k])) {
-                     return v(
-                        "lost-input",
-                        format!("{}: lattice {} input {} is no longer below the stored value", ctx, meta.name, short(r)),
+                     return vr("lost-input", meta.name, format!("{}: lattice {} input {} is no longer below the stored value", ctx, meta.name, short(r)),
                      );
                   },
             }
@@ -174,15 +194,13 @@ fn multiplicity(def: &ProgramDef, rels: &[Vec<Row>], facts: &Facts, ctx: &str) -
          for (t, n) in inp.iter() {
             let o = out.get(*t).cloned().unwrap_or(0);
             if o < *n {
-               return v("lost-input", format!("{}: relation {} lost input tuple {} ({} of {} left)", ctx, meta.name, short(t), o, n));
+               return vr("lost-input", meta.name, format!("{}: relation {} lost input tuple {} ({} of {} left)", ctx, meta.name, short(t), o, n));
             }
          }
          for (t, o) in out.iter() {
             let allowed = inp.get(*t).cloned().unwrap_or(1);
             if *o > allowed {
-               return v(
-                  "duplicate-row",
-                  format!("{}: relation {} holds {} copies of {} (input had {})", ctx, meta.name, o, short(t), inp.get(*t).cloned().unwrap_or(0)),
+               return vr("duplicate-row", meta.name, format!("{}: relation {} holds {} copies of {} (input had {})", ctx, meta.name, o, short(t), inp.get(*t).cloned().unwrap_or(0)),
                );
             }
          }
@@ -192,6 +210,20 @@ fn multiplicity(def: &ProgramDef, rels: &[Vec<Row>], facts: &Facts, ctx: &str) -
 }
 
 fn same_as_sets(def: &ProgramDef, a: &[Vec<Row>], b: &[Vec<Row>], ctx: &str) -> Option<Violation> {
+   let mut first = same_as_sets_first(def, a, b, ctx)?;
+   first.rels = def
+      .rels
+      .iter()
+      .enumerate()
+      .filter(|(i, m)| {
+         m.io && a[*i].iter().collect::<std::collections::BTreeSet<_>>() != b[*i].iter().collect::<std::collections::BTreeSet<_>>()
+      })
+      .map(|(_, m)| m.name.to_string())
+      .collect();
+   Some(first)
+}
+
+fn same_as_sets_first(def: &ProgramDef, a: &[Vec<Row>], b: &[Vec<Row>], ctx: &str) -> Option<Violation> {
    for (i, meta) in def.rels.iter().enumerate() {
       if !meta.io {
          continue;
@@ -200,9 +232,7 @@ fn same_as_sets(def: &ProgramDef, a: &[Vec<Row>], b: &[Vec<Row>], ctx: &str) -> 
       let sb: std::collections::BTreeSet<&Row> = b[i].iter().collect();
       if sa != sb {
          let d = sb.symmetric_difference(&sa).next().unwrap();
-         return v(
-            "not-idempotent",
-            format!("{}: {} {} changed by a run() without new facts (e.g. {})", ctx, if meta.lattice { "lattice" } else { "relation" }, meta.name, short(d)),
+         return vr("not-idempotent", meta.name, format!("{}: {} {} changed by a run() without new facts (e.g. {})", ctx, if meta.lattice { "lattice" } else { "relation" }, meta.name, short(d)),
          );
       }
    }
@@ -214,11 +244,11 @@ pub fn failure_violation(f: &Failure) -> Violation {
       Failure::Panic { msg } => {
          // class carries the location only, so that shrinking keeps "the same panic"
          let loc = msg.rsplit(" @ ").next().unwrap_or("");
-         Violation { class: format!("panic:{}", loc), detail: msg.clone() }
+         Violation { class: format!("panic:{}", loc), detail: msg.clone(), rel: None, rels: vec![] }
       },
-      Failure::Deadlock { msg } => Violation { class: "deadlock".into(), detail: msg.clone() },
+      Failure::Deadlock { msg } => Violation { class: "deadlock".into(), detail: msg.clone(), rel: None, rels: vec![] },
       Failure::StepLimit =>
-         Violation { class: "no-termination".into(), detail: "step budget exhausted under a fair schedule".into() },
+         Violation { class: "no-termination".into(), detail: "step budget exhausted under a fair schedule".into(), rel: None, rels: vec![] },
    }
 }
 
@@ -264,10 +294,24 @@ pub fn judge(case: &Case, obs: &Observation) -> Option<Violation> {
                if let Some(x) = multiplicity(def, &s.rels, &facts, &ctx) {
                   return Some(x);
                },
-            "C02" | "C10" | "C20" =>
+            "C02" | "C10" =>
                if let Some(x) = equal_to_reference(def, &s.rels, &reference(def, &facts), &ctx) {
                   return Some(x);
                },
+            "C20" => {
+               // "each computes exactly what it computes when run alone [in the default pool]"
+               let solo = solo_snaps(case, ai);
+               match solo.iter().find(|x| x.op == s.op) {
+                  Some(alone) => {
+                     if let Some(mut x) = same_as_sets(def, &alone.rels, &s.rels, &ctx) {
+                        x.class = "differs-from-solo".into();
+                        x.detail = x.detail.replace("changed by a run() without new facts", "differs from the same instance run alone in the default pool");
+                        return Some(x);
+                     }
+                  },
+                  None => {}, // the solo run itself failed: not a statement about isolation
+               }
+            },
             "C13" => {
                if let Some(p) = prev {
                   if !pushed_between(actor, p.op, s.op) {
@@ -305,4 +349,32 @@ pub fn judge(case: &Case, obs: &Observation) -> Option<Violation> {
       }
    }
    None
+}
+
+thread_local! {
+   static SOLO_CACHE: std::cell::RefCell<Option<(u64, usize, Vec<Snap>)>> = std::cell::RefCell::new(None);
+}
+
+/// the same actor (program, variant, history) run alone: no co-tenants, every construction and
+/// run in the default (global) pool of 4 threads, default schedule
+fn solo_snaps(case: &Case, ai: usize) -> Vec<Snap> {
+   if let Some(hit) = SOLO_CACHE.with(|c| c.borrow().as_ref().filter(|(i, a, _)| *i == case.index && *a == ai).map(|x| x.2.clone())) {
+      return hit;
+   }
+   let mut solo = case.clone();
+   solo.pools = vec![];
+   solo.knobs = crate::case::Knobs { shards_override: case.knobs.shards_override, ..Default::default() };
+   solo.sched = crate::sched::SchedPlan::Gen { seed: 0, mode: crate::sched::GenMode::Default };
+   let mut actor = case.actors[ai].clone();
+   for op in actor.ops.iter_mut() {
+      match op {
+         Op::New { pool } | Op::Run { pool } | Op::RunTimeout { pool, .. } => *pool = crate::case::PoolRef::Global,
+         _ => {},
+      }
+   }
+   solo.actors = vec![actor];
+   let obs = crate::exec::execute(&solo);
+   let snaps: Vec<Snap> = if obs.failure.is_some() { vec![] } else { obs.snaps };
+   SOLO_CACHE.with(|c| *c.borrow_mut() = Some((case.index, ai, snaps.clone())));
+   snaps
 }
